@@ -130,7 +130,8 @@ func brief(kind string, r Ret) string {
 // hence resident and unmoved throughout - is visited exactly once, and for the
 // ordered walks stable entries appear in their (fixed) recency order.
 // A walk that stopped because its visitor said so (limit reached) is only
-// subject to (1) and to "at most once" for stable entries.
+// subject to (1) and to "at most once" for stable entries. (3) No pass visits a
+// key twice, and the visitor is not called again after it returned false.
 func CheckWalkWeak(s0 Ref, windowOps []Op, final Obs, walk Op, got Ret) (rule, text string) {
 	legit := map[KV]bool{}
 	for _, e := range s0.L {
@@ -162,8 +163,16 @@ func CheckWalkWeak(s0 Ref, windowOps []Op, final Obs, walk Op, got Ret) (rule, t
 	}
 	stopped := walk.Limit > 0 && len(got.Seq) >= walk.Limit
 	count := map[KV]int{}
+	keys := map[int]bool{}
 	for _, kv := range got.Seq {
 		count[kv]++
+		if keys[kv.K] {
+			return "walk-key-twice", fmt.Sprintf("%s visited key k%d twice in one pass: %v", walk, kv.K, got.Seq)
+		}
+		keys[kv.K] = true
+	}
+	if walk.Limit > 0 && len(got.Seq) > walk.Limit {
+		return "walk-early-stop-ignored", fmt.Sprintf("%s: the visitor returned false at visit %d and was called again: %v", walk, walk.Limit, got.Seq)
 	}
 	for _, s := range stable {
 		if count[s] > 1 {
